@@ -54,6 +54,16 @@ def e1_batches(shared):
                     sel_eq(2) + if_(t) + local_get(1) + flip + op(xor) + ELSE + const(t, 0) + END + END + END +
                     local_get(3) + atomic(0x1e + 6 * 7 + w, al, off))
             fn('i' + t * 3, t, body, 3 if t == 'i' else 4, '%s.atomic.rmw.cmpxchg (after store; selector) offset=%d' % (WNAME[w], off))
+            if off == 0:
+                # the same instructions with their result in a stack slot ABOVE another operand and consumed by a further instruction
+                # (a result that is returned at once sits in slot 0, which the function's return declares anyway)
+                below = const(t, 5)
+                fn('i', t, below + local_get(0) + atomic(0x10 + w, al, off) + op(add), 0, '%s.atomic.load above an operand, then add' % WNAME[w])
+                for g in range(6):
+                    fn('i' + t, t, below + local_get(0) + local_get(1) + atomic(0x1e + g * 7 + w, al, off) + op(add), vs, '%s.atomic.rmw.%s above an operand, then add' % (WNAME[w], GROUP[g]))
+                fn('i' + t * 3, t, below + body + op(add), 3 if t == 'i' else 4, '%s.atomic.rmw.cmpxchg above an operand, then add' % WNAME[w])
+                # ... and with the result dropped / compared (no arithmetic on the slot)
+                fn('i' + t * 3, 'i', body + const(t, 7) + op(0x46 if t == 'i' else 0x51), 3 if t == 'i' else 4, '%s.atomic.rmw.cmpxchg result compared' % WNAME[w])
     m.add_func('', '', (), b'\xfe\x03\x00', export='f%d' % k)
     cases.append(Case('f%d' % k, '', 'v', 5, -1, 'atomic.fence')); inputsets.append(('explicit', [()]))
     b = Batch(m.encode(), cases, inputsets)
